@@ -152,3 +152,7 @@ Definition disk_file_wanted (cfg : cli_cfg) (f : disk_file) : bool :=
 
 (* what the operating system makes of os.Exit(n): the low eight bits *)
 Definition os_status (z : Z) : Z := Z.modulo z 256.
+
+(* parseArgs refuses an -exitCode value that no process can deliver; before the repair every value was taken *)
+Definition parse_exit_code (z : Z) : option Z := if (0 <=? z)%Z && (z <=? 255)%Z then Some z else None.
+Definition parse_exit_code_prefix (z : Z) : option Z := Some z.
